@@ -51,6 +51,7 @@ int main(void) {
     zh_apply_limits();
     char *line;
     unsigned char *base = NULL; size_t base_n = 0;
+    char cpt[32] = "-", cps[32] = "-"; char *cpd = strdup("-");
     while((line = zh_readline(stdin))) {
         char pt[32], ps[32];
         char *pd = malloc(strlen(line) + 1), *hex = malloc(strlen(line) + 1);
@@ -61,16 +62,19 @@ int main(void) {
             free(raw);
         } else if(sscanf(line, "B %s", hex) == 1) {
             free(base); base = zh_unhex(hex, &base_n); printf("BASE\n");
+            strcpy(cpt, "-"); strcpy(cps, "-"); free(cpd); cpd = strdup("-");
+        } else if(sscanf(line, "P %31s %s %31s", pt, pd, ps) == 3) {
+            strcpy(cpt, pt); strcpy(cps, ps); free(cpd); cpd = strdup(pd); printf("PINS\n");
         } else if(sscanf(line, "m %lu %u", &pos, &val) == 2 && base) {
             unsigned char *b = malloc(base_n + 1); memcpy(b, base, base_n); b[pos] = (unsigned char)val;
-            open_bytes(b, base_n, "-", "-", "-"); free(b);
+            open_bytes(b, base_n, cpt, cpd, cps); free(b);
         } else if(sscanf(line, "i %lu %u", &pos, &val) == 2 && base) {
             unsigned char *b = malloc(base_n + 2); memcpy(b, base, pos); b[pos] = (unsigned char)val;
             memcpy(b + pos + 1, base + pos, base_n - pos);
-            open_bytes(b, base_n + 1, "-", "-", "-"); free(b);
+            open_bytes(b, base_n + 1, cpt, cpd, cps); free(b);
         } else if(sscanf(line, "x %lu", &pos) == 1 && base) {
             unsigned char *b = malloc(base_n + 1); memcpy(b, base, pos); memcpy(b + pos, base + pos + 1, base_n - pos - 1);
-            open_bytes(b, base_n - 1, "-", "-", "-"); free(b);
+            open_bytes(b, base_n - 1, cpt, cpd, cps); free(b);
         } else printf("BADCASE\n");
         free(pd); free(hex);
         fflush(stdout);
